@@ -386,6 +386,6 @@ func TestC06(t *testing.T) {
 	r.Assume("reference: plain negamax over refchess legal moves on an engine Position (DoMove/UndoMove/Evaluate/CheckRepetitions are trusted here and decided by C02/C03/C10/C15); a depth-d leaf is valued by the static evaluation (as the engine does), interior nodes without legal move -mate+ply / 0, a move leading to a twofold-repeated position or clock >= 100 is 0")
 	r.Assume("trees containing a position where the listed game-phase drift can occur are excluded by construction and counted")
 
-	hx.Sub(r, "minimax", r.N(1000, 6000), func(t *rapid.T) c06Case { return genC06(t, r.N(3, 4), false) }, propC06)
-	hx.Sub(r, "quiescence-invariance", r.N(600, 5000), func(t *rapid.T) c06Case { return genC06(t, r.N(3, 4), true) }, propC06)
+	hx.Sub(r, "minimax", r.N(600, 6000), func(t *rapid.T) c06Case { return genC06(t, r.N(3, 4), false) }, propC06)
+	hx.Sub(r, "quiescence-invariance", r.N(400, 5000), func(t *rapid.T) c06Case { return genC06(t, r.N(3, 4), true) }, propC06)
 }
